@@ -63,6 +63,36 @@ Section MapLemmas.
     - now rewrite IH.
   Qed.
 
+  (** On a duplicate-free list the last position of a key is its first position. *)
+  Lemma find_last_nodup k : forall l, NoDup (keys l) -> find_last k l = find_key k l.
+  Proof.
+    induction l as [|[k' v'] l IH]; intro N; [reflexivity|]. cbn [find_last find_key].
+    unfold keys in N. cbn [map fst] in N. inversion N as [|? ? Nk Nl]; subst. rewrite (IH Nl).
+    destruct (find_key k l) as [i|] eqn:F; [|reflexivity].
+    destruct (find_key_set k v' l i F) as (_ & H & _). apply has_key_in in H.
+    destruct (bytes_eqb k' k) eqn:E; [|reflexivity]. apply bytes_eqb_eq in E. subst. contradiction.
+  Qed.
+
+  Lemma nodup_keys_app_l (a b : list (bytes * A)) : NoDup (keys (a ++ b)) -> NoDup (keys a).
+  Proof.
+    unfold keys. rewrite map_app. induction (map fst a) as [|x l IH]; cbn; intro H; [constructor|].
+    inversion H; subst. constructor; [rewrite in_app_iff in *; tauto | auto].
+  Qed.
+
+  Lemma nodup_keys_app_r (a b : list (bytes * A)) : NoDup (keys (a ++ b)) -> NoDup (keys b).
+  Proof.
+    unfold keys. rewrite map_app. induction (map fst a) as [|x l IH]; cbn; intro H; [exact H|].
+    inversion H; subst. auto.
+  Qed.
+
+  Lemma nodup_keys_disjoint k (a b : list (bytes * A)) :
+    NoDup (keys (a ++ b)) -> has_key k b = true -> has_key k a = false.
+  Proof.
+    intros N Hb. apply has_key_false. intro Ha. apply has_key_in in Hb.
+    unfold keys in *. rewrite map_app in N. revert N Ha. induction (map fst a) as [|x l IH]; cbn; [tauto|].
+    intros N [->|Ha]; inversion N; subst; [|auto]. rewrite in_app_iff in *. tauto.
+  Qed.
+
   Lemma length_set_key k v m : length (set_key k v m) = length m.
   Proof.
     induction m as [|[k' v'] m IH]; cbn; [reflexivity|].
@@ -243,7 +273,7 @@ Proof.
     + intro H. lia.
 Qed.
 
-Lemma overwrite_spec r k v :
+Lemma overwrite_spec r k v : NoDup (keys (attrs_of r)) ->
   match overwrite r (k, v) with
   | Some r' => has_key k (attrs_of r) = true /\ attrs_of r' = set_key k v (attrs_of r) /\
                length (r_front r') = length (r_front r) /\ length (r_back r') = length (r_back r) /\
@@ -251,14 +281,23 @@ Lemma overwrite_spec r k v :
   | None => has_key k (attrs_of r) = false
   end.
 Proof.
-  unfold overwrite, attrs_of. cbn [fst].
-  destruct (find_key k (r_front r)) as [i|] eqn:F.
-  - destruct (find_key_set k v _ _ F) as (H1 & H2 & _). cbv iota beta. cbn [r_front r_back r_flat r_nested].
-    rewrite has_key_app, H2, H1, set_key_app_l by exact H2. rewrite length_set_key. repeat split.
-  - apply find_key_none in F. destruct (find_key k (r_back r)) as [i|] eqn:G.
-    + destruct (find_key_set k v _ _ G) as (H1 & H2 & _). cbv iota beta. cbn [r_front r_back r_flat r_nested].
-      rewrite has_key_app, F, H2, H1, set_key_app_r by exact F. rewrite length_set_key. repeat split.
-    + apply find_key_none in G. now rewrite has_key_app, F, G.
+  unfold overwrite, attrs_of. cbn [fst]. intro N.
+  rewrite (find_last_nodup k _ (nodup_keys_app_r _ _ N)), (find_last_nodup k _ (nodup_keys_app_l _ _ N)).
+  destruct (find_key k (r_back r)) as [i|] eqn:G.
+  - destruct (find_key_set k v _ _ G) as (H1 & H2 & _). cbv iota beta. cbn [r_front r_back r_flat r_nested].
+    pose proof (nodup_keys_disjoint k _ _ N H2) as F.
+    rewrite has_key_app, F, H2, H1, set_key_app_r by exact F. rewrite length_set_key. repeat split.
+  - apply find_key_none in G. destruct (find_key k (r_front r)) as [i|] eqn:F.
+    + destruct (find_key_set k v _ _ F) as (H1 & H2 & _). cbv iota beta. cbn [r_front r_back r_flat r_nested].
+      rewrite has_key_app, H2, H1, set_key_app_l by exact H2. rewrite length_set_key. repeat split.
+    + apply find_key_none in F. now rewrite has_key_app, F, G.
+Qed.
+
+(** The in-place write touches no counter (no hypothesis on the keys). *)
+Lemma overwrite_counters r a r' : overwrite r a = Some r' -> r_flat r' = r_flat r /\ r_nested r' = r_nested r.
+Proof.
+  unfold overwrite. destruct (find_last (fst a) (r_back r)); [intro H; injection H as <-; now split|].
+  destruct (find_last (fst a) (r_front r)); [intro H; injection H as <-; now split | discriminate].
 Qed.
 
 (** firstn against the first position of a key *)
@@ -307,7 +346,8 @@ Section Merge.
   Definition loop_inv (n0 : nat) (r : rec) (u : list lkv) : Prop :=
     length (attrs_of r) = n0 /\
     ((0 < limit)%Z -> (Z.of_nat n0 <= limit)%Z) /\
-    (forall k, has_key k u = true -> has_key k (attrs_of r) = false).
+    (forall k, has_key k u = true -> has_key k (attrs_of r) = false) /\
+    NoDup (keys (attrs_of r)).
 
   Lemma has_key_nk k (m : list lkv) : has_key k (map nk m) = has_key k m.
   Proof. apply (has_key_map (norm lenlim)). Qed.
@@ -322,7 +362,7 @@ Section Merge.
     abs n0 (fst st) (snd st) = offer (abs n0 r u) a /\ loop_inv n0 (fst st) (snd st) /\
     length (r_front (fst st)) = length (r_front r) /\ length (r_back (fst st)) = length (r_back r).
   Proof.
-    intros (Hn & Hl & Hd). destruct a as [k v]. unfold merge_step. cbn [fst snd].
+    intros (Hn & Hl & Hd & Hnd). destruct a as [k v]. unfold merge_step. cbn [fst snd].
     destruct (find_key k u) as [i|] eqn:F.
     - (* duplicate of a pending new key *)
       destruct (find_key_set k v u i F) as (E1 & E2 & E3). rewrite E1. cbn [fst snd].
@@ -347,7 +387,7 @@ Section Merge.
     - apply find_key_none in F.
       pose proof (apply_value_limits_norm lenlim v) as Nv.
       destruct (apply_value_limits lenlim v) as [v' n]. cbn [fst] in Nv. subst v'.
-      pose proof (overwrite_spec r k (norm lenlim v)) as O.
+      pose proof (overwrite_spec r k (norm lenlim v) Hnd) as O.
       destruct (overwrite r (k, norm lenlim v)) as [r'|].
       + (* overwrite of a held key *)
         destruct O as (O1 & O2 & O3 & O4 & O5 & O6). cbn [fst snd].
@@ -359,6 +399,7 @@ Section Merge.
           -- now rewrite O2, length_set_key.
           -- intros k' Hk. specialize (Hd k' Hk). apply has_key_false in Hd. apply has_key_false.
              now rewrite O2, keys_set_key.
+          -- now rewrite O2, keys_set_key.
       + (* a new key *)
         cbn [fst snd]. split; [|split; [|split; reflexivity]].
         * unfold abs, Spec.offer. cbn [fst snd]. rewrite app_length. cbn [length].
@@ -450,12 +491,24 @@ Section Refine.
     (Z.of_nat (length (fst (fold_left offer l st))) <= limit)%Z.
   Proof. induction l as [|a l IH]; intros st H0 H; cbn [fold_left]; [exact H|]. apply IH; [exact H0|]. now apply offer_len_le. Qed.
 
+  Lemma offer_nodup st a : NoDup (keys (fst st)) -> NoDup (keys (fst (offer st a))).
+  Proof.
+    destruct st as [m d]. unfold Spec.offer. cbn [fst]. intro H.
+    destruct (has_key (fst a) m) eqn:E; cbn [fst]; [now rewrite keys_set_key|].
+    destruct (room limit (length m)); cbn [fst]; [|exact H].
+    rewrite keys_app. cbn. apply has_key_false in E. now apply NoDup_snoc.
+  Qed.
+
+  Lemma fold_offer_nodup l : forall st, NoDup (keys (fst st)) -> NoDup (keys (fst (fold_left offer l st))).
+  Proof. induction l as [|a l IH]; intros st H; cbn [fold_left]; [exact H|]. apply IH. now apply offer_nodup. Qed.
+
   (** ** The simulation relation *)
 
   Definition RInv (r : rec) (st : list lkv * nat) : Prop :=
     attrs_of r = fst st /\ r_flat r = snd st /\ shape r /\
     ((0 < limit)%Z -> (Z.of_nat (length (fst st)) <= limit)%Z) /\
-    (fst st = [] -> snd st = 0%nat).
+    (fst st = [] -> snd st = 0%nat) /\
+    NoDup (keys (fst st)).
 
   Lemma RInv_ext rA rB st : r_front rA = r_front rB -> r_back rA = r_back rB -> r_flat rA = r_flat rB ->
     RInv rA st -> RInv rB st.
@@ -482,18 +535,18 @@ Section Refine.
 
   Lemma general_path_sim r attrs st : RInv r st -> RInv (general_path r attrs) (fold_left offer attrs st).
   Proof.
-    intros (I1 & I2 & I3 & I4 & I5). destruct st as [m d]. cbn [fst snd] in *.
+    intros (I1 & I2 & I3 & I4 & I5 & I6). destruct st as [m d]. cbn [fst snd] in *.
     set (n0 := length (attrs_of r)).
     assert (Hn : (length (r_front r) + length (r_back r))%nat = n0) by (unfold n0, attrs_of; now rewrite app_length).
     assert (LI : loop_inv limit n0 r []).
-    { repeat split; [|discriminate]. intro H. unfold n0. rewrite I1. now apply I4. }
+    { split; [reflexivity|]. split; [intro H; unfold n0; rewrite I1; now apply I4|]. split; [discriminate | now rewrite I1]. }
     assert (A0 : abs lenlim limit n0 r [] = (m, d)).
     { unfold abs. cbn [length firstn map]. rewrite firstn_nil. cbn [map]. rewrite app_nil_r, I1, I2. f_equal.
       unfold keptn. destruct (0 <? limit)%Z; cbn; lia. }
     destruct (merge_loop_abs lenlim limit limit_nz n0 attrs r [] LI) as (M1 & M2 & M3 & M4). cbv zeta in *.
     unfold general_path. rewrite Hn.
     destruct (fold_left (merge_step lenlim) attrs (r, [])) as [r1 u1]. cbn [fst snd] in *.
-    rewrite A0 in M1. destruct M2 as (L1 & L2 & L3).
+    rewrite A0 in M1. destruct M2 as (L1 & L2 & L3 & L4).
     assert (S1 : shape r1).
     { unfold shape in *. rewrite M3. intro H. specialize (I3 H). rewrite I3 in M4. destruct (r_back r1); [reflexivity | discriminate]. }
     set (res := if (0 <? limit)%Z && (limit <? Z.of_nat (n0 + length u1))%Z
@@ -522,6 +575,7 @@ Section Refine.
     - intro H. apply fold_offer_len_le; [exact H|]. cbn [fst]. now apply I4.
     - intro H. destruct attrs as [|a attrs]; [cbn in *; now apply I5|].
       exfalso. apply (fold_offer_nonempty (a :: attrs) (m, d)); [discriminate | exact H].
+    - apply fold_offer_nodup. exact I6.
   Qed.
 
   (** With nothing held the merge loop is dedup. *)
@@ -554,7 +608,7 @@ Section Refine.
     RInv (fast_path r attrs) (fold_left offer attrs st).
   Proof.
     intros I Z0. pose proof (general_path_sim r attrs st I) as G. revert G. apply RInv_ext.
-    all: destruct I as (I1 & I2 & I3 & I4 & I5);
+    all: destruct I as (I1 & I2 & I3 & I4 & I5 & I6);
       assert (F : r_front r = []) by (destruct (r_front r); [reflexivity | cbn in Z0; lia]);
       assert (B : r_back r = []) by (destruct (r_back r); [reflexivity | cbn in Z0; lia]);
       assert (D0 : r_flat r = 0%nat) by (rewrite I2; apply I5; rewrite <- I1; unfold attrs_of; now rewrite F, B);
@@ -579,7 +633,7 @@ Section Refine.
   Qed.
 
   Lemma RInv_empty : RInv empty_rec ([], 0%nat).
-  Proof. unfold RInv, shape. cbn. repeat split; auto; lia. Qed.
+  Proof. unfold RInv, shape. cbn. repeat split; auto; try lia. constructor. Qed.
 
   Lemma set_attributes_as_add attrs :
     set_attributes lenlim limit attrs = add_attributes lenlim limit empty_rec attrs.
@@ -716,8 +770,8 @@ Proof.
     destruct (find_key k u) as [i|]; cbn [fst snd].
     - split; [cbn; lia | now apply Forall_set_nth].
     - pose proof (nested_zero lenlim v Pa) as Z. destruct (apply_value_limits lenlim v) as [v' n]. cbn [snd] in Z. subst n.
-      pose proof (overwrite_spec r k v') as O. destruct (overwrite r (k, v')) as [r'|]; cbn [fst snd].
-      + destruct O as (_ & _ & _ & _ & _ & O6). split; [cbn; lia | exact Fu].
+      destruct (overwrite r (k, v')) as [r'|] eqn:O; cbn [fst snd].
+      + destruct (overwrite_counters _ _ _ O) as [_ O6]. split; [cbn; lia | exact Fu].
       + split; [reflexivity|]. apply Forall_app. split; [exact Fu | now constructor]. }
   destruct S as [S1 S2]. destruct (merge_step lenlim (r, u) a) as [r1 u1]. cbn [fst snd] in *.
   destruct (IH r1 u1 Fa' S2) as [H1 H2]. cbv zeta in *. split; [congruence | exact H2].
@@ -1129,4 +1183,49 @@ Proof.
   unfold clone_trace, on_heap, hclone. cbn [h_back h_front h_flat h_nested length app nth].
   rewrite htrace_independent; cbn [h_back length]; try lia.
   unfold to_rec. cbn [h_front h_back h_flat h_nested nth]. now rewrite !rec_eta.
+Qed.
+
+(** * The count limit as the code understands it: refinement for ALL limits *)
+
+(** 0 means "unlimited" to the code (documented otherwise: F-C17-2). *)
+Definition code_limit (limit : Z) : Z := if (limit =? 0)%Z then (-1)%Z else limit.
+
+Theorem refines_all lenlim limit ops :
+  (attrs_of (run_model lenlim limit ops), r_flat (run_model lenlim limit ops)) = run_spec lenlim (code_limit limit) ops.
+Proof.
+  unfold code_limit. destruct (Z.eqb_spec limit 0) as [->|H].
+  - rewrite run_limit_zero. now apply refines.
+  - now apply refines.
+Qed.
+
+(** * Emit: logger.newRecord adds the emitted attributes one by one *)
+
+Lemma new_record_as_ops lenlim limit init :
+  new_record lenlim limit init = run_model lenlim limit (map (fun a => OAdd [a]) init).
+Proof.
+  unfold new_record, run_model. generalize empty_rec.
+  induction init as [|a init IH]; intro r; cbn [map fold_left]; [reflexivity|]. apply IH.
+Qed.
+
+Lemma run_emit_as_ops lenlim limit init ops :
+  run_emit lenlim limit init ops = run_model lenlim limit (map (fun a => OAdd [a]) init ++ ops).
+Proof. unfold run_emit. rewrite new_record_as_ops. unfold run_model. now rewrite fold_left_app. Qed.
+
+Lemma run_spec_emit_as_ops lenlim limit init ops :
+  run_spec_emit lenlim limit init ops = run_spec lenlim limit (map (fun a => OAdd [a]) init ++ ops).
+Proof.
+  unfold run_spec_emit, run_spec. rewrite fold_left_app. f_equal.
+  generalize (@nil lkv, 0%nat). induction init as [|a init IH]; intro st; cbn [map fold_left]; [reflexivity|].
+  rewrite <- IH. reflexivity.
+Qed.
+
+Theorem emit_refines lenlim limit init ops :
+  let r := run_emit lenlim limit init ops in
+  (attrs_of r, r_flat r) = run_spec_emit lenlim (code_limit limit) init ops /\
+  (flat_attrs init = true -> flat_ops ops = true -> r_nested r = 0%nat).
+Proof.
+  intro r. unfold r. rewrite run_emit_as_ops, run_spec_emit_as_ops. split; [apply refines_all|].
+  intros F1 F2. apply run_nested_zero. unfold flat_ops in *. rewrite forallb_app, F2, andb_true_r.
+  unfold flat_attrs in F1. rewrite forallb_forall in *. intros o Ho. apply in_map_iff in Ho as (a & <- & Ha).
+  unfold flat_attrs. cbn. now rewrite (F1 a Ha).
 Qed.
